@@ -278,11 +278,12 @@ type liveGroup struct {
 	mock  *sdsMock
 	lname string
 	cur   []ctxCase
+	insp  bool // the listener's inspector flag after the updates applied so far
 	kinds []string
 }
 
 func newLive(g *group, p *pki, mock *sdsMock) *liveGroup {
-	lg := &liveGroup{g: g, p: p, mock: mock, lname: fmt.Sprintf("g%d", g.idx), kinds: make([]string, len(g.ctxs))}
+	lg := &liveGroup{g: g, p: p, mock: mock, lname: fmt.Sprintf("g%d", g.idx), insp: g.insp, kinds: make([]string, len(g.ctxs))}
 	lg.cur = append(lg.cur, g.ctxs...)
 	rng := rand.New(rand.NewSource(vh.Seed()*1000003 + int64(g.idx)))
 	for i, c := range g.ctxs {
@@ -346,7 +347,7 @@ func (lg *liveGroup) listener() *v2.Listener {
 	tlsCfgs, _, _ := lg.tlsContexts()
 	lc := &v2.Listener{}
 	lc.Name = lg.lname
-	lc.Inspector = lg.g.insp
+	lc.Inspector = lg.insp
 	lc.FilterChains = []v2.FilterChain{{TLSContexts: tlsCfgs}}
 	return lc
 }
@@ -355,6 +356,16 @@ func (lg *liveGroup) listener() *v2.Listener {
 // certificate as a secret push on the running provider; everything else is a TLS config update of the listener
 // (reconfigure: called with the new context list), which re-configures SDS providers in place.
 func (lg *liveGroup) apply(u updCase, reconfigure func() error) (vh.Ev, error) {
+	if u.Pos == 0 { // the listener's own inspector flag: always a listener update
+		if u.Field != "inspector" {
+			return nil, fmt.Errorf("unknown listener update field %q", u.Field)
+		}
+		if err := json.Unmarshal(u.Val, &lg.insp); err != nil {
+			return nil, err
+		}
+		err := reconfigure()
+		return vh.Ev{"ev": "upd", "pos": 0, "field": u.Field, "val": lg.insp, "path": "config-update", "kind": "listener"}, err
+	}
 	i := u.Pos - 1
 	if i < 0 || i >= len(lg.cur) {
 		return nil, fmt.Errorf("update position %d out of range", u.Pos)
